@@ -16,6 +16,7 @@
  *               empty message delivered
  *  MODE 4 RXB   body of BL bytes arrives in two pieces (any split): delivered
  *               message has exactly the bytes the stream wrote, once
+ *  MODE 6/7      cancellation of a send / receive that is in progress (WHICHC 0) or queued behind one (WHICHC 1)
  *  MODE 5 NEGO  handshake: ANY 8 bytes: accepted iff 00 'S' 'P' 00 pp pp 00 00,
  *               else the pipe is dropped, the pending accept/dial fails and
  *               nothing else changes; partial handshake reads resume in place
@@ -83,12 +84,24 @@
 /* ---- the byte stream underneath: records what the transport asks for ---- */
 static nni_aio *s_send_aio, *s_recv_aio;
 static int      s_sends, s_recvs, s_closed;
+/* an aborted stream transfer completes with the abort code (what the platform stream's cancel function does) */
+static void
+s_cancel(nni_aio *aio, void *arg, nng_err rv)
+{
+	nni_aio **slot = arg;
+	if (*slot == aio) {
+		*slot = NULL;
+		nni_aio_finish_error(aio, rv); /* its callback runs later, on the task thread (kquiesce) */
+	}
+}
 void
 nng_stream_send(nng_stream *s, nni_aio *aio)
 {
 	(void) s;
 	CHECK(s_send_aio == NULL, "one stream write at a time");
-	s_send_aio = aio;
+	s_send_aio        = aio;
+	aio->a_cancel_fn  = s_cancel;
+	aio->a_cancel_arg = &s_send_aio;
 	s_sends++;
 }
 void
@@ -96,7 +109,9 @@ nng_stream_recv(nng_stream *s, nni_aio *aio)
 {
 	(void) s;
 	CHECK(s_recv_aio == NULL, "one stream read at a time");
-	s_recv_aio = aio;
+	s_recv_aio        = aio;
+	aio->a_cancel_fn  = s_cancel;
+	aio->a_cancel_arg = &s_recv_aio;
 	s_recvs++;
 }
 void
@@ -162,6 +177,8 @@ stream_done(nni_aio **slot, size_t n, nng_err rv)
 {
 	nni_aio *a = *slot;
 	*slot      = NULL;
+	a->a_cancel_fn  = NULL;
+	a->a_cancel_arg = NULL;
 	a->a_result = rv;
 	a->a_count  = n;
 	/* run the transport's callback as the task thread would */
@@ -256,6 +273,70 @@ harness(void)
 		CHECK(KDONE(0) && KRESULT(0) == 0 && nni_aio_count(&uaio_at(0)) == BL, "send completes once, reporting the body length");
 		CHECK(nni_aio_get_msg(&uaio_at(0)) == NULL && env_msg_live == live0 - 1, "the sent message is released exactly once");
 		CHECK(s_send_aio == NULL, "nothing further is written");
+	}
+#elif MODE == 6
+	{
+		/* TX cancel: send 0 is being written, send 1 waits behind it; WHICHC is the one the protocol cancels */
+		nni_msg *m0 = kmsg(2), *m1 = kmsg(2);
+		kuaio_prepare(0, 1);
+		kuaio_prepare(1, 1);
+		nni_aio_set_msg(&uaio_at(0), m0);
+		nni_aio_set_msg(&uaio_at(1), m1);
+		env_aio_submit(&uaio_at(0));
+		env_aio_submit(&uaio_at(1));
+		int live0 = env_msg_live;
+		F(pipe_send)(&tp, &uaio_at(0));
+		F(pipe_send)(&tp, &uaio_at(1));
+		CHECK(s_send_aio == &tp.TXAIO && s_sends == 1, "the first message is being written, the second waits");
+#if WHICHC == 1
+		nni_aio_abort(&uaio_at(1), NNG_ECANCELED);
+		kquiesce();
+		CHECK(KDONE(1) && KRESULT(1) == NNG_ECANCELED, "cancelling a send that has not started completes it at once with ECANCELED");
+		CHECK(nni_aio_get_msg(&uaio_at(1)) == m1 && env_msg_live == live0, "its message stays, untouched, with the caller");
+		CHECK(!KDONE(0) && s_send_aio == &tp.TXAIO, "the transfer in progress is not disturbed");
+		stream_done(&s_send_aio, HDRSZ + 2, 0);
+		kquiesce();
+		CHECK(KDONE(0) && KRESULT(0) == 0 && env_msg_live == live0 - 1, "which then completes normally");
+		CHECK(s_send_aio == NULL, "and nothing of the cancelled message is ever written");
+		WITNESS("queued send cancelled");
+		nni_msg_free(m1);
+#else
+		nni_aio_abort(&uaio_at(0), NNG_ECANCELED);
+		kquiesce();
+		CHECK(KDONE(0) && KRESULT(0) == NNG_ECANCELED && env_aio_completed(&uaio_at(0)) == 1, "cancelling the send in progress aborts the transfer and completes the send once with ECANCELED");
+		CHECK(nni_aio_get_msg(&uaio_at(0)) == m0 && env_msg_live == live0, "the message of a failed send stays with the caller (not freed by the transport)");
+		CHECK(!(KDONE(1) && KRESULT(1) == 0), "the send queued behind it is not reported successful (nothing of it was written)");
+		WITNESS("send in progress cancelled");
+		nni_msg_free(m0);
+		/* (what happens to the send queued behind a failed one is not examined: no protocol keeps more than one send
+		 * outstanding per pipe, and after a failed transfer the protocol closes the pipe) */
+		nni_msg_free(m1);
+#endif
+	}
+#elif MODE == 7
+	{
+		/* RX cancel: receive 0 is reading the length prefix, receive 1 waits behind it */
+		kuaio_prepare(0, 1);
+		kuaio_prepare(1, 1);
+		env_aio_submit(&uaio_at(0));
+		env_aio_submit(&uaio_at(1));
+		int live0 = env_msg_live;
+		F(pipe_recv)(&tp, &uaio_at(0));
+		F(pipe_recv)(&tp, &uaio_at(1));
+		CHECK(s_recv_aio == &tp.RXAIO && s_recvs == 1, "one read is in progress for the first receive");
+#if WHICHC == 1
+		nni_aio_abort(&uaio_at(1), NNG_ECANCELED);
+		kquiesce();
+		CHECK(KDONE(1) && KRESULT(1) == NNG_ECANCELED && !KDONE(0) && s_recv_aio == &tp.RXAIO, "cancelling a waiting receive completes only that one, at once");
+		WITNESS("queued receive cancelled");
+#else
+		nni_aio_abort(&uaio_at(0), NNG_ECANCELED);
+		kquiesce();
+		CHECK(KDONE(0) && KRESULT(0) == NNG_ECANCELED && env_aio_completed(&uaio_at(0)) == 1, "cancelling the receive in progress aborts the read and completes the receive once with ECANCELED");
+		CHECK(nni_aio_get_msg(&uaio_at(0)) == NULL, "no message is delivered by a cancelled receive");
+		WITNESS("receive in progress cancelled");
+#endif
+		CHECK(env_msg_live == live0, "no partially received message is leaked");
 	}
 #elif MODE == 2
 	{
